@@ -35,7 +35,12 @@ families: exh (all short histories of four small universes), rand, neartie (fitn
           magnitude (values around 2^70 whose sums absorb small differences), bigbatch (populations of
           11-40 with many duplicates), wide (capacity 16-40 / Pareto fronts of >= 16 with ties on the
           first objective), container (set / dict individuals, equal sets in different insertion orders, dicts
-          with equal keys)
+          with equal keys), large (fam "large": Pareto archives of 16..129 members on a trade-off line with ties / duplicates,
+          2-4 objectives of mixed weights, met by batches in which one individual dominates 16/17/32/33/64/65/128/129
+          members (or all, or few) and is preceded / followed in the SAME batch by dominated, in-between, equal, twin and
+          incomparable individuals, the batch cut into updates at random places; halls of fame of capacity 16..200 filled
+          to m-1 / m / beyond and then hit by bulk evictions of 16..129 members; the statement recomputed by brute force
+          from the full log (oracle_pf_large / oracle_hof_large: the same clauses as oracle_pf / oracle_hof, vectorised))
 """
 import itertools
 import operator
@@ -52,7 +57,9 @@ RULE = ("exhaustive: every history of <=3 batches of <=2 individuals from 4 univ
         "1 and 2 objectives with mixed weight signs, capacity 1..3, HallOfFame and ParetoFront; random: 1-4 "
         "objectives, <=6 batches of <=5, empty batches, re-submission and in-place modification of submitted "
         "objects, 7 similarity operators; near-tie fitnesses (2^-40 apart), magnitudes 2^70, populations of 11-40 with "
-        "duplicates, capacities 16-40 with first-objective ties; flat and nested genomes, set- and dict-based individuals, "
+        "duplicates, capacities 16-40 with first-objective ties; LARGE archives (144 quick / 1440 thorough histories + 16 fixed ones): Pareto fronts of 16..129 members "
+        "(both sides of 16/17, 32/33, 64/65, 128/129) with one individual dominating 16..129 members at once followed / preceded in the same batch by "
+        "dominated, in-between, equal-fitness, twin and incomparable individuals, halls of fame of capacity 16..200 with bulk evictions; flat and nested genomes, set- and dict-based individuals, "
         "mutable attributes; every call form of the constructors (positional / keyword similarity); heap stream: 1500 (quick) histories "
         "with in-place modifications of submitted objects at every level between the updates, replayed through the heap-level model "
         "(list individuals flat / nested, set individuals), members as identity-free terms and keys compared after every update and after every round of modifications. "
@@ -576,10 +583,12 @@ def evaluate(d):
         if orc is None and deep_snapshot(arch) != snap:
             orc = "archive content changed when the submitted individuals were modified in place"
         if orc is None and stream in ("main", "viol") and op == "u":
+            large = d.get("fam") == "large" and stream == "main"
             if kind == "hof":
-                orc = oracle_hof(arch, m, sim, shown, fit_ok=(stream == "main"))
+                orc = oracle_hof_large(arch, m, sim, shown) if large and sim_props(sim)[2] \
+                    else oracle_hof(arch, m, sim, shown, fit_ok=(stream == "main"))
             else:
-                orc = oracle_pf(arch, sim, shown)
+                orc = oracle_pf_large(arch, sim, shown) if large else oracle_pf(arch, sim, shown)
         # ---- branch tags
         if op == "u":
             gone = [x for x in before if x not in after]
@@ -593,6 +602,8 @@ def evaluate(d):
                 flags.add("full")
             if len(after) >= 16:
                 flags.add("len>=16")
+            if len(gone) > 16:
+                flags.add("gone>16")
             ins = [x for x in after if x not in before]
             if len(ins) < len(set((tuple(canon_desc(container, e[1])), wvals(w, e[2])) for e in ev[1])):
                 flags.add("reject")
@@ -894,6 +905,287 @@ HEAP_CORNERS = [
 ]
 
 
+# ----------------------------------------------------------------------------------------
+# large archives (fam "large"): Pareto fronts / halls of fame of 16..200 members, bulk domination / bulk eviction
+# ----------------------------------------------------------------------------------------
+
+def _dom_matrix(A, B):
+    """brute force: M[i, j] = A[i] dominates B[j] (weighted values, maximisation); doubles compare exactly"""
+    import numpy as np
+    A = np.asarray(A, dtype=float).reshape(len(A), -1)
+    B = np.asarray(B, dtype=float).reshape(len(B), -1)
+    ge = (A[:, None, :] >= B[None, :, :]).all(-1)
+    gt = (A[:, None, :] > B[None, :, :]).any(-1)
+    return ge & gt
+
+
+def oracle_pf_large(arch, sim, shown):
+    """the clauses of oracle_pf, recomputed by brute force from the full log of everything shown, with the n^2
+    dominance tests vectorised (the weighted values are doubles, compared exactly) and the members indexed by fitness"""
+    refl, symm, equiv = sim_props(sim)
+    simc = sim_content(sim)
+    items, _ = content(arch)
+    if items:
+        ws = [[float(x) for x in w] for _, w in items]
+        M = _dom_matrix(ws, ws)
+        if M.any():
+            i, j = [int(v[0]) for v in M.nonzero()]
+            return "member %s dominates member %s" % (items[i][1], items[j][1])
+    by_fit = {}
+    for it in items:
+        by_fit.setdefault(it[1], []).append(it)
+    if symm:
+        for group in by_fit.values():
+            for i in range(len(group)):
+                for j in range(len(group)):
+                    if i != j and simc(group[i], group[j]):
+                        return "members %s and %s are twins (equal fitness and similar)" % (group[i], group[j])
+    if refl and symm:
+        allw = sorted(set(w for _, w in shown))
+        if allw:
+            fl_all = [[float(x) for x in w] for w in allw]
+            D = _dom_matrix(fl_all, fl_all)
+            dominated = D.any(axis=0)
+            nondom = set(w for w, dd in zip(allw, dominated) if not dd)
+        else:
+            nondom = set()
+        for g, w in items:
+            if w not in nondom:
+                return "member (%s,%s) is dominated by a fitness that was shown" % (g, w)
+        for x in set(shown):
+            if x[1] in nondom and not any(simc(x, it) for it in by_fit.get(x[1], ())):
+                return "shown non-dominated individual %s has no member with equal fitness similar to it" % (x,)
+    return None
+
+
+def oracle_hof_large(arch, m, sim, shown):
+    """the clauses of oracle_hof for an EQUIVALENCE similarity with equal fitness inside a class (main stream):
+    'similar' is 'same class key', so pairwise dissimilar = distinct keys and represented = key among the members'"""
+    refl, symm, equiv = sim_props(sim)
+    if not equiv:
+        raise ValueError("oracle_hof_large needs an equivalence similarity")
+    items, _ = content(arch)
+    n = len(items)
+    keys = [class_key(sim, g, w) for g, w in items]
+    seen = {}
+    for i, k in enumerate(keys):
+        if k in seen:
+            return "members %d and %d are similar" % (seen[k], i)
+        seen[k] = i
+    classes = set(class_key(sim, g, w) for g, w in shown)
+    if len(classes) <= m and classes != set(keys):
+        return "only %d distinct individuals were shown (capacity %d) but not all are kept" % (len(classes), m)
+    for x in set(shown):
+        if class_key(sim, x[0], x[1]) not in seen:
+            if n != m:
+                return "shown individual %s is not represented although the archive holds %d < %d" % (x, n, m)
+            if x[1] > items[-1][1]:
+                return "shown individual %s is strictly better than the worst member %s and not represented" % (x, items[-1][1])
+    return None
+
+
+THRESH = [16, 17, 32, 33, 64, 65, 128, 129]
+LARGE_W = ["1", "-1", "2", "-2", "1/2", "-1/2", "1", "-1"]
+
+
+def _unweight(w, wv):
+    """the values whose weighted values are wv (weights are +-2^k: exact)"""
+    return [sfr(Fr(x) / Fr(q)) for x, q in zip(wv, w)]
+
+
+def _cut(rng, seq, pieces):
+    """cut a list into `pieces` consecutive batches (some possibly empty)"""
+    cuts = sorted(rng.randint(0, len(seq)) for _ in range(pieces - 1))
+    out, a = [], 0
+    for c in cuts + [len(seq)]:
+        out.append(seq[a:c])
+        a = c
+    return out
+
+
+def gen_large_pf(rng, i):
+    """a Pareto archive of S members (S walks through 16/17, 32/33, 64/65, 128/129 and random sizes 17..120) on a
+    trade-off line with duplicates of fitness (different genomes: kept) and of individuals (twins: rejected), then
+    batches mixing individuals that dominate K members at once (K = 16/17/32/33/64/65/128/129 / everything / few),
+    dominated ones, copies of the champion's fitness, individuals between champion and front, incomparable ones,
+    in a random order inside the batch"""
+    nobj = rng.choice([2, 2, 3, 4])
+    w = [rng.choice(LARGE_W) for _ in range(nobj)]
+    sim = rng.choice(["eq", "eq", "eq", "eq", "fit", "mod3", "near1"])
+    S = THRESH[(i // 2) % len(THRESH)] if i % 2 == 0 else rng.randint(17, 120)
+    ndup = rng.choice([0, 0, 1, 2, 3]) if sim in ("eq", "mod3", "near1") else 0
+    N = S - ndup
+    xmax = 2                                   # largest extra coordinate of a member
+    nextg = [1000]
+
+    def genome():
+        nextg[0] += rng.choice([1, 1, 2, 7])
+        return [nextg[0]]
+
+    def extras(top=False):
+        return [xmax if top else rng.randint(0, xmax) for _ in range(nobj - 2)]
+
+    line = [[2 * j, 2 * (N - 1 - j)] + extras() for j in range(N)]
+    members = [[genome(), wv] for wv in line]
+    for _ in range(ndup):                      # equal fitness, another genome (dissimilar for eq / mod3 / near1: kept)
+        g0, wv = rng.choice(members[:N])
+        members.append([[g0[0] + 1201 + 12 * rng.randint(0, 40)], list(wv)])
+    first = list(members)
+    for _ in range(rng.choice([0, 2, 5])):     # the same individual again (twin), dominated stragglers
+        g0, wv = rng.choice(members)
+        first.append([list(g0), list(wv)])
+        j = rng.randrange(N)
+        first.append([genome(), [2 * j - 1, 2 * (N - 1 - j) - rng.choice([0, 1])] + [0] * (nobj - 2)])
+    rng.shuffle(first)
+    batches = _cut(rng, first, rng.choice([1, 1, 2, 3]))
+    # ---- the batches that meet the large archive
+    cur = [list(wv) for _, wv in members]      # fitnesses in the archive (an over-approximation after the first champion)
+
+    def count_dom(p):
+        return sum(1 for q in cur if all(a >= b for a, b in zip(p, q)) and p != q)
+
+    def champion(K):
+        """a point dominating exactly K current line members where possible"""
+        hi = rng.randrange(N)
+        lo = hi
+        p = [2 * hi + 1, 2 * (N - 1 - lo) + 1] + extras(top=True)
+        while count_dom(p) < K and (lo > 0 or hi < N - 1):
+            if lo > 0 and (hi == N - 1 or rng.random() < 0.5):
+                lo -= 1
+            else:
+                hi += 1
+            p = [2 * hi + 1, 2 * (N - 1 - lo) + 1] + p[2:]
+        return p
+
+    kinds = ["champ", "few", "dominated", "between", "incomparable", "member-copy", "member-twin", "random"]
+    for b in range(rng.choice([1, 2, 2, 3])):
+        K = rng.choice([THRESH[(i // 3 + b) % len(THRESH)], THRESH[(i + b) % 4], S, rng.randint(17, max(17, S))])
+        K = min(K, S)
+        top = champion(K)
+        tg = genome()
+        pop = [[tg, top]]
+        for _ in range(rng.choice([1, 2, 3, 5, 8])):
+            kind = rng.choice(kinds + ["champ-copy", "champ-twin", "below-champ", "below-champ"])
+            j = rng.randrange(N)
+            if kind == "champ":
+                pop.append([genome(), champion(rng.choice([K, 17, 16, 2]))])
+            elif kind == "few":
+                pop.append([genome(), champion(rng.choice([1, 2, 3]))])
+            elif kind == "dominated":
+                pop.append([genome(), [2 * j - rng.choice([0, 1]), 2 * (N - 1 - j) - 1] + [0] * (nobj - 2)])
+            elif kind == "between" or kind == "below-champ":
+                # dominated by the champion (or equal in some coordinates), dominating part of the old front
+                d = rng.choice([0, 1, 2, 5])
+                pop.append([genome(), [top[0] - d, top[1] - rng.choice([0, 1, 3])] + extras(top=rng.random() < 0.5)])
+            elif kind == "incomparable":
+                pop.append([genome(), [2 * j + 1, 2 * (N - 1 - j) - 1] + extras()])
+            elif kind == "member-copy":
+                pop.append([genome(), list(rng.choice(members)[1])])
+            elif kind == "member-twin":
+                g0, wv = rng.choice(members)
+                pop.append([list(g0), list(wv)])
+            elif kind == "champ-copy":
+                pop.append([[tg[0] + 4 * 300], list(top)])
+            elif kind == "champ-twin":
+                pop.append([list(tg), list(top)])
+            else:
+                pop.append([genome(), [rng.randint(-1, 2 * N + 1), rng.randint(-1, 2 * N + 1)] + extras()])
+        order = rng.choice(["champ-first", "champ-first", "shuffle", "champ-last"])
+        rest = pop[1:]
+        rng.shuffle(rest)
+        if order == "champ-first":
+            pop = [pop[0]] + rest
+        elif order == "champ-last":
+            pop = rest + [pop[0]]
+        else:
+            pop = [pop[0]] + rest
+            rng.shuffle(pop)
+        batches.extend(_cut(rng, pop, rng.choice([1, 1, 1, 2])))
+        cur = [q for q in cur if not (all(a >= b for a, b in zip(top, q)) and top != q)] + [top]
+    ev, slot = [], 0
+    for bt in batches:
+        pop = []
+        for g, wv in bt:
+            pop.append([slot, list(g), _unweight(w, wv)])
+            slot += 1
+        ev.append(["u", pop])
+    return {"k": "pf", "m": 0, "sim": sim, "w": w, "stream": "main", "fam": "large", "default_sim": sim == "eq" and rng.random() < 0.5,
+            "ev": ev}
+
+
+def gen_large_hof(rng, i):
+    """a hall of fame of capacity m (16/17, 32/33, 64/65, 128/129 and random 17..200) filled to m-1 / m / beyond, then
+    batches that evict K members at once (K around the same thresholds, or everything), mixed with worse individuals,
+    individuals similar to members, ties with the worst member, in a random order"""
+    nobj = rng.choice([1, 1, 2, 3])
+    w = [rng.choice(LARGE_W) for _ in range(nobj)]
+    m = THRESH[(i // 2) % len(THRESH)] if i % 2 == 0 else rng.randint(17, 200)
+    sim = rng.choice(["eq", "eq", "eq", "mod%d" % (2 * m + 1), "mod%d" % max(2, m - 1), "fit"])
+    table = {}
+    level = [0]                                 # fitness levels grow: later individuals tend to be better
+
+    def fitness(g, better):
+        key = class_key(sim, g, None) if sim != "fit" else tuple(g)
+        if key not in table:
+            first = level[0] + rng.randint(1, 3) if better else rng.randint(0, max(1, level[0]))
+            table[key] = [first] + [rng.randint(0, 2) for _ in range(nobj - 1)]
+        return table[key]
+
+    nextg = [0]
+
+    def fresh():
+        nextg[0] += rng.choice([1, 1, 2])
+        return [nextg[0]]
+
+    used = []
+
+    def individual(better):
+        if used and rng.random() < 0.15:
+            g = list(rng.choice(used))          # the same individual (or one similar to it) again
+        else:
+            g = fresh()
+            used.append(g)
+        return [g, fitness(g, better)]
+
+    fill = m + rng.choice([-1, 0, 0, 1, 3])
+    firstpop = [individual(rng.random() < 0.5) for _ in range(fill)]
+    level[0] = max(v[0] for v in table.values())
+    batches = _cut(rng, firstpop, rng.choice([1, 1, 2, 3]))
+    for b in range(rng.choice([1, 2, 2, 3])):
+        K = rng.choice([THRESH[(i // 3 + b) % len(THRESH)], THRESH[(i + b) % 4], m, m + 1, rng.randint(1, m)])
+        K = min(K, m + 3)
+        pop = [individual(True) for _ in range(K)]
+        for _ in range(rng.choice([0, 2, 5, 10])):
+            pop.append(individual(False))
+        rng.shuffle(pop)
+        level[0] = max(v[0] for v in table.values())
+        batches.extend(_cut(rng, pop, rng.choice([1, 1, 2])))
+    ev, slot = [], 0
+    for bt in batches:
+        pop = []
+        for g, wv in bt:
+            pop.append([slot, list(g), _unweight(w, wv)])
+            slot += 1
+        ev.append(["u", pop])
+    return {"k": "hof", "m": m, "sim": sim, "w": w, "stream": "main", "fam": "large",
+            "default_sim": sim == "eq" and rng.random() < 0.5, "ev": ev}
+
+
+# the failing input of seeded/C08-r8m1 in its smallest form and its neighbours on both sides of the 16/17 boundary
+def _line_case(size, tail):
+    w = ["1", "1"]
+    line = [[j, [j], [str(j), str(size - 1 - j)]] for j in range(size)]
+    top = size + 10
+    second = [[900, [900], [str(top), str(top)]]] + [[901 + k, [901 + k], [str(a), str(b)]] for k, (a, b) in enumerate(tail(top))]
+    return {"k": "pf", "m": 0, "sim": "eq", "w": w, "stream": "main", "fam": "large", "default_sim": True,
+            "ev": [["u", line], ["u", second]]}
+
+
+LARGE_CORNERS = [_line_case(size, tail) for size in (16, 17, 18, 33)
+                 for tail in (lambda t: [(t - 5, t - 5)], lambda t: [(t, t)], lambda t: [(t + 1, -1)],
+                              lambda t: [(0, 0), (t - 1, t + 1)])]
+
+
 def gen_random_viol(rng, kind):
     nobj = rng.choice([1, 2, 2, 3])
     w = [rand_weight(rng) for _ in range(nobj)]
@@ -974,6 +1266,7 @@ def generate(tier, rng, mult):
 
 CTOR_FORMS = ["pos", "kw", "kwall"]
 NHEAP = 1500
+NLARGE = 144
 
 
 def _generate(tier, rng, mult):
@@ -984,6 +1277,11 @@ def _generate(tier, rng, mult):
     # the heap stream carries the deep-copy clause (model == implementation incl. the in-place modifications): first
     for d in HEAP_CORNERS:
         yield d
+    # large archives carry "dominates several members at once" / bulk eviction beyond what a small universe reaches
+    for d in LARGE_CORNERS:
+        yield d
+    for i in range(NLARGE * scale):
+        yield gen_large_hof(rng, i // 3) if i % 3 == 2 else gen_large_pf(rng, i - i // 3)
     for i in range(NHEAP * scale):
         yield gen_heap(rng, "pf" if i % 3 == 2 else "hof", i)
     for i in range(300 * scale):
